@@ -269,8 +269,8 @@ func TestC19Exhaustive(t *testing.T) {
 				for emb := 0; emb <= len(wraps); emb++ {
 					for oi, o := range PBObjects {
 						for ii, into := range intos {
-							if (ci+oi+ii)%3 != 0 && len(wraps) == 2 {
-								continue // depth 2: a third of the (class, message, target) combinations per list
+							if (ci+oi+ii)%6 != 0 && len(wraps) == 2 {
+								continue // depth 2: a sixth of the (class, message, target) combinations per list
 							}
 							run(Case{Kind: "chain", Chain: Chain{Class: cls, Wraps: wraps, Embed: emb, PB: o, Into: into}})
 							protos++
